@@ -102,6 +102,8 @@ pub fn weights_for(prop: &str) -> [u32; 18] {
             w[O_UNCHECKED] = 4;
         }
         "C05" => {
+            // states reached through the unsafe fast path (inside its contract) count as reachable states
+            w[O_UNCHECKED] = 8;
             w[O_ENTRY] = 10;
             w[O_RETAIN] = 6;
             w[O_CHECKED] = 10;
@@ -1146,6 +1148,18 @@ impl<'a> Engine<'a> {
                         let cnt = it.clone().count();
                         if cnt != len - j {
                             self.h.viol("C09", "count", format!("{}: count() after {} of {} items = {}", kname, j, len, cnt));
+                        }
+                        // clone_from: an iterator at another position, overwritten in place, continues like its source
+                        let adv = (j * 7 + len + 1) % (len + 1);
+                        let mut c = $mk;
+                        for _ in 0..adv {
+                            c.next();
+                        }
+                        c.clone_from(&it);
+                        let cl = c.len();
+                        let rest_cf: Vec<(u32, u64)> = c.map($proj).collect();
+                        if rest_cf != rest_orig || cl != len - j {
+                            self.h.viol("C09", "clone_from-diverges", format!("{}: an iterator advanced by {} and then overwritten with clone_from(&original after {} of {} items) reports len {} and continues differently", kname, adv, j, len, cl));
                         }
                     }
                     exact!(it, step, kname);
